@@ -352,4 +352,11 @@ JunkStr == {"x", "z", "q", "#", "?", "~", "xz", "Q!", "zzzzzzzz", "--", "+-", "-
 NumFormsStr == Cat(SignStr, MagnitudeStr)
 SizeFormsStr == Cat(NumFormsStr, SuffixStr)
 AllFormsStr == BoolFormsStr \cup SizeFormsStr \cup JunkStr
+\* the part that the quick tier always runs: every boolean spelling, every junk form, and the arithmetic boundaries
+\* (rounding to KiB, LONG_MAX, 2^64, MI_MAX_ALLOC_SIZE) with the main suffixes; the rest is sampled (seeded)
+EdgeMagnitudeStr == {"0", "1", "1023", "1024", "1025", "2147483648", "281474976579584", "281474976579585", "274877906816", "274877906817",
+                     "268435455", "268435456", "262143", "262144", "17179869183", "17179869184", "18014398509481983", "18014398509481984",
+                     "9223372036854775807", "9223372036854775808", "18446744073709551615", "18446744073709551616", "99999999999999999999"}
+QuickSuffixStr == {"", "K", "M", "G", "T", "KiB", "GiB", "B", "mb", "x"}
+QuickFormsStr == BoolFormsStr \cup JunkStr \cup Cat(Cat({"", "-"}, EdgeMagnitudeStr), QuickSuffixStr)
 =============================================================================
